@@ -18,7 +18,7 @@ fn any_set(k: &KeyF) -> In {
     kani::assume(n <= CAP);
     let mut i = 0;
     while i < CAP {
-        kani::assume(e[i] >= 0 && e[i] <= 15);
+        kani::assume(e[i] >= 0 && e[i] <= 7);
         if i + 1 < CAP && i + 1 < n {
             kani::assume(k.key(e[i]) < k.key(e[i + 1]));
         }
@@ -60,14 +60,14 @@ fn check_result(out: &ArrValue, want: &[i16; 6], wn: usize) {
     }
 }
 
-//@harness tier=quick timeout=600 desc="std.setMember(x, s, keyF) is true exactly when some element of s has the key of x (binary search)" bounds="|s| <= 3, elements 0..=15, keyF identity or x>>1, x 0..=15"
+//@harness tier=quick timeout=600 desc="std.setMember(x, s, keyF) is true exactly when some element of s has the key of x (binary search)" bounds="|s| <= 3, elements 0..=7, keyF identity or x>>1, x 0..=15"
 #[kani::proof]
 #[kani::unwind(6)]
 pub fn set_member() {
     let k = any_keyf();
     let s = any_set(&k);
     let x: i16 = kani::any();
-    kani::assume(x >= 0 && x <= 15);
+    kani::assume(x >= 0 && x <= 7);
     let want = has_key(&s, &k, k.key(x));
     #[cfg(verif_playback)]
     {
@@ -84,7 +84,7 @@ pub fn set_member() {
 macro_rules! set_op {
     ($name:ident, $f:ident, $js:literal, $keep_a:expr, $keyf:expr) => {
         #[kani::proof]
-        #[kani::unwind(18)]
+        #[kani::unwind(10)]
         pub fn $name() {
             // the key function is concrete per harness (halves the state space of the merge loops)
             let k: KeyF = $keyf;
@@ -93,9 +93,9 @@ macro_rules! set_op {
             // reference: merge by key
             let mut want = [0i16; 6];
             let mut wn = 0;
-            // walk keys 0..=15 ascending; at most one element per key and side
+            // walk keys 0..=7 ascending; at most one element per key and side
             let mut key = 0i16;
-            while key <= 15 {
+            while key <= 7 {
                 let mut ea = None;
                 let mut eb = None;
                 let mut i = 0;
@@ -131,17 +131,17 @@ macro_rules! set_op {
         }
     };
 }
-//@harness name=set_union tier=quick timeout=1200 unwind=18 desc="std.setUnion: merge by key, ascending, duplicate-free, the element of `a` wins on equal keys; identity key" bounds="|a|,|b| <= 3, elements 0..=15"
+//@harness name=set_union tier=quick timeout=1200 unwind=10 desc="std.setUnion: merge by key, ascending, duplicate-free, the element of `a` wins on equal keys; identity key" bounds="|a|,|b| <= 3, elements 0..=7"
 set_op!(set_union, builtin_set_union, "setUnion", |ea, eb| ea.or(eb), KeyF::Identity);
-//@harness name=set_union_keyf tier=quick timeout=1200 unwind=18 desc="std.setUnion: merge by key, ascending, duplicate-free, the element of `a` wins on equal keys; key function x -> x>>1 (different elements may share a key)" bounds="|a|,|b| <= 3, elements 0..=15"
+//@harness name=set_union_keyf tier=quick timeout=1200 unwind=10 desc="std.setUnion: merge by key, ascending, duplicate-free, the element of `a` wins on equal keys; key function x -> x>>1 (different elements may share a key)" bounds="|a|,|b| <= 3, elements 0..=7"
 set_op!(set_union_keyf, builtin_set_union, "setUnion", |ea, eb| ea.or(eb), KeyF::Half);
-//@harness name=set_inter tier=quick timeout=1200 unwind=18 desc="std.setInter: the elements of `a` whose key occurs in `b`; identity key" bounds="|a|,|b| <= 3, elements 0..=15"
+//@harness name=set_inter tier=quick timeout=1200 unwind=10 desc="std.setInter: the elements of `a` whose key occurs in `b`; identity key" bounds="|a|,|b| <= 3, elements 0..=7"
 set_op!(set_inter, builtin_set_inter, "setInter", |ea, eb| if eb.is_some() { ea } else { None }, KeyF::Identity);
-//@harness name=set_inter_keyf tier=quick timeout=1200 unwind=18 desc="std.setInter: the elements of `a` whose key occurs in `b`; key function x -> x>>1 (different elements may share a key)" bounds="|a|,|b| <= 3, elements 0..=15"
+//@harness name=set_inter_keyf tier=quick timeout=1200 unwind=10 desc="std.setInter: the elements of `a` whose key occurs in `b`; key function x -> x>>1 (different elements may share a key)" bounds="|a|,|b| <= 3, elements 0..=7"
 set_op!(set_inter_keyf, builtin_set_inter, "setInter", |ea, eb| if eb.is_some() { ea } else { None }, KeyF::Half);
-//@harness name=set_diff tier=quick timeout=1200 unwind=18 desc="std.setDiff: the elements of `a` whose key does not occur in `b`; identity key" bounds="|a|,|b| <= 3, elements 0..=15"
+//@harness name=set_diff tier=quick timeout=1200 unwind=10 desc="std.setDiff: the elements of `a` whose key does not occur in `b`; identity key" bounds="|a|,|b| <= 3, elements 0..=7"
 set_op!(set_diff, builtin_set_diff, "setDiff", |ea, eb| if eb.is_none() { ea } else { None }, KeyF::Identity);
-//@harness name=set_diff_keyf tier=quick timeout=1200 unwind=18 desc="std.setDiff: the elements of `a` whose key does not occur in `b`; key function x -> x>>1 (different elements may share a key)" bounds="|a|,|b| <= 3, elements 0..=15"
+//@harness name=set_diff_keyf tier=quick timeout=1200 unwind=10 desc="std.setDiff: the elements of `a` whose key does not occur in `b`; key function x -> x>>1 (different elements may share a key)" bounds="|a|,|b| <= 3, elements 0..=7"
 set_op!(set_diff_keyf, builtin_set_diff, "setDiff", |ea, eb| if eb.is_none() { ea } else { None }, KeyF::Half);
 
 // ---------------------------------------------------------------------------------------------
